@@ -13,10 +13,11 @@ let run _args =
       (match S.trim kind, words cfg with
        | "pn", [mn; pre; md] ->
          let ((((root, st), res), mv), why) =
-           PnInst.pn_run (Lazy.force iters) (Lazy.force dfuel) (n_of_string mn) (pre = "1") (z_of_string md) p in
+           PnRun.pn_run (Lazy.force iters) (Lazy.force dfuel) (n_of_string mn) (pre = "1") (z_of_string md) p in
          (match int_of_n why with
           | 1 -> ("PANIC", None, None)
           | 2 -> ("MODEL-OUT-OF-FUEL", None, None)
+          | 3 -> ("MODEL-SATURATED", None, None)
           | _ ->
             let l1 = verdict (int_of_n res) ^ " " ^ enc_move mv in
             let l2 = S.concat " " (L.map string_of_n
